@@ -98,10 +98,13 @@ pub fn outcome_key(text: &str) -> String {
         Err(c) => format!("panic {}", c.sig()),
         Ok(Err(e)) => match &e {
             Error::CannotDo2(..) => format!("rejected {e:?}"),
+            // a constant operation that always fails may be reported while parsing
+            _ if run::EXEC_ERROR_KINDS.contains(&run::error_kind(&e).as_str()) => format!("error {}", run::error_kind(&e)),
             _ => format!("rejected {}", run::error_kind(&e)),
         },
         Ok(Ok(code)) => match run::exec_guarded(&code) {
             run::Outcome::Value(v) => format!("value {}", canon::canon(&v).show()),
+            run::Outcome::ExecError(k) => format!("error {k}"),
             o => o.short(),
         },
     }
@@ -218,6 +221,26 @@ fn check_infix(case: &Json, stats: &mut Stats) -> Verdict {
                     format!(
                         "`{text}` ({how}) gives [{got}] but the table groups it as `{exp_text}` which gives [{exp_key}]"
                     ),
+                );
+            }
+        }
+        // the same chain with one operand at a time hidden behind a parameter (partially
+        // constant chains are rebuilt by the folding pass; the grouping must survive it)
+        for hide in 0..n {
+            let ty = match vals[hide] {
+                "true" | "false" => "bool",
+                v if v.contains('.') => "float",
+                _ => "int",
+            };
+            let mut vs = vals.clone();
+            vs[hide] = "p";
+            let text = format!("f := (p: {ty}) -> any {{ return {}; }}; f({})", flat(&vs, &ops, " "), vals[hide]);
+            stats.eval();
+            let got = outcome_key(&text);
+            if got != exp_key {
+                return fail(
+                    format!("C14:infix-param:{}", ops.join("_")),
+                    format!("`{text}` gives [{got}] but the table groups the chain as `{exp_text}` which gives [{exp_key}]"),
                 );
             }
         }
